@@ -253,3 +253,6 @@ func ReplayMain(fns map[string]func()) {
 		panic(err)
 	}
 }
+
+// StepDeadline: natively a no-op (a run that never returns is reported by the hang detector).
+func StepDeadline(n int, label string) {}
